@@ -143,7 +143,12 @@ class NodeMeta(type):
                     # Case: Special kwargs
                     if not key.isidentifier() or keyword.iskeyword(key):
                         # NOTE: Since these keys are not part of signature validation,
-                        # we have to check ourselves if any args follow them.
+                        # we have to check ourselves if any args follow them, and that
+                        # they are not repeated.
+                        if key in invalid_kwargs:
+                            raise TypeError(
+                                f"Invalid parameters for tag '{self.tag}': got multiple values for argument '{key}'"
+                            )
                         invalid_kwargs[key] = resolved_param.value
                         did_see_special_kwarg = True
                     else:
